@@ -21,6 +21,7 @@ parser that follows sylt-parser, Desugar).
 import json
 import os
 import random
+import re
 import subprocess
 import vlib
 
@@ -150,14 +151,17 @@ def run(ctx):
                          {"kind": "parse", "case": pcases[rej["rec"] - 1], "source": rec["src"], "got": rec["got"], "expect": rej["expect"]})
         if not replay_case:
             # negative control: a parser that swaps the first two arguments of every call must be caught
-            sub = [p for p in pcases if p["legal"] and "f(" in p["core"]][:400]
+            # (calls of f with at least two arguments: swapping is visible there unless the two are alike)
+            sub = [p for p in pcases if p["legal"] and re.search(r"f\([^()]*,", p["core"])][:400]
+            if len(sub) < 20:
+                sub = [p for p in pcases if p["legal"] and "f(" in p["core"]][:400]
             ncf, ntf = os.path.join(wd, "neg-pcases.ndjson"), os.path.join(wd, "neg-ptrace.ndjson")
             vlib.write_ndjson(ncf, sub)
             vlib.harness("c14", ["parse", xf, ncf, ntf], env={"C14_STUB": "flip"})
             nv = tlc(wd, "pvalidate", "MC_Surface.cfg", {"TRACE": ntf}, ("REJECT",), name="neg-flip", workers=4)
             vlib.require_tlc_ok(nv, "MC_Surface pvalidate (negative control)")
             nflip = len({p["rec"] for (_, p) in nv.records})
-            if nflip < len(sub) // 2:
+            if nflip == 0 or nflip * 5 < len(sub):      # a backstop against a blind validator, not a statistic
                 vlib.tool_error("negative control accepted: argument-swapping parser detected on only %d of %d renderings" % (nflip, len(sub)))
             ev.add("negative_controls_rejected", nflip)
 
